@@ -32,6 +32,7 @@
 import ICal.Lemmas.Codec
 import ICal.Lemmas.Bodies
 import ICal.Lemmas.BodiesDec
+import ICal.Lemmas.BodiesDDD
 namespace ICal.C03
 open ICal.Codec
 
@@ -520,5 +521,32 @@ example : Gen.BodiesDec.vUTCOffset_from_ical "+2400".toList = .error .valueError
 example : Gen.BodiesDec.vUTCOffset_from_ical "-0130".toList = .ok ⟨-1, 81000⟩ := by decide
 example : (PyRT.durGroups "-P1DT2H".toList).map (fun g => (g.1, g.2.2.1, g.2.2.2.1)) =
     some (some ['-'], some ['1'], some ['2']) := by decide
+
+/-! ### the typed dispatchers as regenerated (wave 6): `vDDDTypes.from_ical` / `to_ical`, `vPeriod.from_ical` / `to_ical`
+
+`Bodies.dddFromP` / `periodFromP` / `atomToP` / `periodToP` are the translated functions with the pieces of
+ICal/Model/DDDPieces.lean; `lu` stands for `tzp.localize_utc`, `tz` for `tzid_from_dt`. -/
+
+/-- the order of the tests of `vDDDTypes.from_ical` is the model's `dddFrom` -/
+theorem body_vDDDTypes_from_ical (lu : PyRT.PyDateTime → PyRT.PyDateTime) (t : Str) :
+    Bodies.dddFromP lu t = Bodies.liftRes (Bodies.dddPy lu) (dddFrom t) := Bodies.ddd_from_eq lu t
+
+theorem body_vPeriod_from_ical (lu : PyRT.PyDateTime → PyRT.PyDateTime) (t : Str) :
+    (Bodies.periodFromP lu t >>= fun r => (pure (PyRT.PyDDD.period r.1 r.2) : PyRT.Py PyRT.PyDDD)) =
+      Bodies.liftRes (Bodies.dddPy lu) (vPeriodFrom t) := Bodies.period_eq lu t
+
+/-- the two functions call each other in the source; the knot is cut on the parts of a period, where the dispatcher
+    ignores its period parameter -/
+theorem body_vDDDTypes_inner_indep (lu : PyRT.PyDateTime → PyRT.PyDateTime)
+    (per per' : Str → Unit → PyRT.Py (PyRT.PyDDD × PyRT.PyDDD)) (t : Str) (h : (upper t).contains '/' = false) :
+    Gen.BodiesDec.vDDDTypes_from_ical (ical := t) (m_of := PyRT.durGroups) (period_from_ical := per) (localize_utc := lu) =
+      Gen.BodiesDec.vDDDTypes_from_ical (ical := t) (m_of := PyRT.durGroups) (period_from_ical := per') (localize_utc := lu) :=
+  Bodies.ddd_inner_indep lu per per' t h
+
+theorem body_vDDDTypes_to_ical (tz : PyRT.PyDateTime → Option Str) (a : Atom) (h : Bodies.TzAgrees tz a) :
+    Bodies.atomToP tz a = .ok (atomTo a) := Bodies.atom_to_eq tz a h
+
+theorem body_vPeriod_to_ical (tz : PyRT.PyDateTime → Option Str) (a b : Atom) (ha : Bodies.TzAgrees tz a) (hb : Bodies.TzAgrees tz b) :
+    Bodies.periodToP tz a b = .ok (vPeriodTo a b) := Bodies.period_to_eq tz a b ha hb
 
 end ICal.C03
